@@ -370,9 +370,13 @@ def run_cases(n, seed, want='structure', ascii_only=True, limit=3, thorough=Fals
         title = (strings[i % len(strings)] + ' title' + ('' if i % 3 else ' ')) if i % 4 else ''
         n_pix = int([0, 1, 7, 9, 10, 20, 100, 1000][i % 8] if i % 16 < 8 else rng.integers(0, 3000))
         chunk = [None, 1, 2, 3, 8, 9, 10, max(n_pix, 1), n_pix + 5, 8192][i % 10]
+        if i % 30 == 27:
+            # "0 .. 10^5 pixels", in memory: single arrays of several megabytes (one chunk of all pixels / chunks of 60001)
+            n_pix = 100003
+            chunk = n_pix if i % 60 == 27 else 60001
         n_runs = int(rng.integers(1, 21)) if i % 3 else 1
         byteorder = ['native', 'little', 'big'][i % 3]
-        k = int(rng.integers(0, len(CALLS) + 1)) if i % 2 else len(CALLS)
+        k = int(rng.integers(0, len(CALLS) + 1)) if i % 2 and i % 30 != 27 else len(CALLS)
         order = list(perms[int(rng.integers(len(perms)))][:k])
         content = make_content(rng, n_pix, n_runs, title, i, strings)
         on_disk = i % 5 == 4
